@@ -356,6 +356,9 @@ func replayMain(args []string) {
 				if *only != "" && getString(m, "kind") != *only {
 					continue
 				}
+				if getString(m, "kind") == "scale" {
+					m["deep"] = os.Getenv("VERIF_DEEP") // part of the case identity (known findings name it)
+				}
 				if hangs.Load() >= *maxHangs {
 					mu.Lock()
 					sum.NotRun++
